@@ -15,7 +15,9 @@
 import json
 import os
 import posixpath
+import re
 import urllib.parse
+import xml.etree.ElementTree as ET
 
 from vlib import core
 from vlib import x_c18 as X
@@ -123,13 +125,27 @@ def enc_optbytes(b):
     return "None" if b is None else "(Some %s)" % enc_bytes(b)
 
 
+PLAIN_CHARS = set("ABCDEFGHIJKLMNOPQRSTUVWXYZabcdefghijklmnopqrstuvwxyz0123456789_.-~/")
+
+
+def nontrivial_input(i):
+    """Non-trivial = the input has at least one character (byte) that quote() would change, or a '%'."""
+    if isinstance(i, bytes):
+        return any(chr(b) not in PLAIN_CHARS for b in i)
+    if isinstance(i, str):
+        return any(c not in PLAIN_CHARS for c in i)
+    if isinstance(i, (tuple, list)):
+        return any(nontrivial_input(x) for x in i if isinstance(x, (str, bytes, tuple, list)))
+    return False
+
+
 def run_suite(ctx, tag, fn, cases, ie, oe, eqb, key=None):
     """One differential suite; records obligation and coverage.  Returns the list of bad indices (or None)."""
     ctx.count("cases:" + tag, len(cases))
     for i, o in cases:
         k = key(i) if key else (i if isinstance(i, (str, bytes)) else repr(i))
-        ctx.case((tag, k), nontrivial=True)
-    bad = ctx.diff_cases("c18_" + tag, HEADER, fn, cases, ie, oe, eqb)
+        ctx.case((tag, k), nontrivial=nontrivial_input(i))
+    bad = ctx.diff_cases("c18_" + tag, HEADER, fn, cases, ie, oe, eqb, shard=900)
     if bad is None:
         return None
     ok = not bad
@@ -146,7 +162,7 @@ def stdlib_suites(ctx):
     alpha = ["/", "%", "4", "1", "a", "F", "?", "#", ";", ":", " ", "\u00e9", "z"]
     L = ctx.n(3, 4)
     small = list(X.small_strings(alpha, L))
-    rnd = [X.rand_url(rng, 12) for _ in range(ctx.n(1500, 40000))]
+    rnd = [X.rand_url(rng, 12) for _ in range(ctx.n(1000, 40000))]
     names = [X.rand_component(rng, 10, allow_dot_start=True) for _ in range(ctx.n(600, 20000))]
     # every code point class, incl. surrogates (quote raises) and the boundaries of the UTF-8 lengths
     cps = [0, 1, 0x1f, 0x20, 0x25, 0x2f, 0x7e, 0x7f, 0x80, 0x7ff, 0x800, 0xfff, 0x1000, 0xd7ff, 0xd800, 0xdbff, 0xdc00, 0xdfff,
@@ -164,7 +180,7 @@ def stdlib_suites(ctx):
     rng.shuffle(tri)
     rng.shuffle(quad)
     byte_cases += tri[:ctx.n(1200, len(tri))] + quad[:ctx.n(800, len(quad))]
-    byte_cases += [X.rand_bytes_utf8ish(rng) for _ in range(ctx.n(1500, 30000))]
+    byte_cases += [X.rand_bytes_utf8ish(rng) for _ in range(ctx.n(1000, 30000))]
 
     run_suite(ctx, "utf8_encode", "utf8_encode", [(s, py_utf8_encode(s)) for s in cp_strings + names[:300]],
               enc_str, enc_optbytes, "eq_opt_str")
@@ -186,7 +202,7 @@ def stdlib_suites(ctx):
         if q and rng.random() < 0.5:
             i = rng.randrange(len(q))
             unq.append(q[:i] + q[i + 1:])
-    for b in byte_cases[:ctx.n(2500, 40000)]:
+    for b in byte_cases[:ctx.n(1800, 40000)]:
         unq.append("".join("%%%02X" % x for x in b))
         unq.append("".join(rng.choice(["%%%02x" % x, chr(x) if x < 128 else "%%%02X" % x]) for x in b))
     run_suite(ctx, "unquote", "unquote", [(s, urllib.parse.unquote(s)) for s in unq], enc_str, enc_str, "eqs")
@@ -347,7 +363,7 @@ def multiget_suite(ctx):
     rng = ctx.rng
     n = ctx.n(700, 15000)
     names = ["a b.ics", "é;x?.ics"]
-    with Server(CONF) as srv:
+    with X.fast_server(CONF) as srv:
         srv.mkcol("/u/")
         srv.mkcalendar("/u/cal/")
         for i, nm in enumerate(names):
@@ -376,6 +392,10 @@ def multiget_suite(ctx):
                     href = rng.choice(["http://h", "https://x:1", "//h", ""]) + urllib.parse.quote(base) + X.rand_url(rng, 8)
                 else:
                     href = X.rand_url(rng, 10)
+            if base and rng.random() < 0.08:
+                # a sibling of the prefix: /radicale2/... is not below /radicale
+                sib = base + rng.choice(["2", "x", "%20", "-"])
+                href = rng.choice([urllib.parse.quote(sib), sib]) + "/u/cal/" + urllib.parse.quote(rng.choice(names))
             if not href or not X.xml_ok(href) or not X.xml_ok(base):
                 continue            # <D:href/> has text None: urlsplit(None) fails an assertion (500); not a URL
             env = {"REQUEST_METHOD": "REPORT", "PATH_INFO": "/u/cal/"}
@@ -425,7 +445,7 @@ def destination_suite(ctx):
     from radicale.app import move as move_mod
     rng = ctx.rng
     n = ctx.n(500, 10000)
-    with Server(CONF) as srv:
+    with X.fast_server(CONF) as srv:
         srv.mkcol("/u/")
         srv.mkcalendar("/u/cal/")
         srv.mkcalendar("/u/cal2/")
@@ -455,10 +475,15 @@ def destination_suite(ctx):
                     dest = pre + base + "/u/cal/" + comp
                 else:
                     dest = pre + urllib.parse.quote(base) + rng.choice(["/u/cal/", "/u/", "/"]) + X.rand_url(rng, 6)
-            try:
-                dest.encode("latin-1")
-            except UnicodeEncodeError:
-                pass                                            # in-process: the environ carries the str as it is
+            if base and rng.random() < 0.08:
+                sib = base + rng.choice(["2", "x", "%20", "-"])
+                dest = "http://127.0.0.1" + rng.choice([urllib.parse.quote(sib), sib]) + "/u/cal/" + urllib.parse.quote(X.rand_component(rng))
+            if k in (len(fixed), len(fixed) + 1):
+                # a one-letter prefix and a path whose first component merely begins with that letter
+                base, dest = "/r", "http://127.0.0.1/ru/cal/sib%d.ics" % k
+                srv.mkcol("/ru/")
+                srv.mkcalendar("/ru/cal/")
+                srv.mkcol("/r/")
             uid = "mv%d" % k
             assert srv.put("/u/cal/src%d.ics" % k, event(uid))[0] == 201
             env = {"REQUEST_METHOD": "MOVE", "PATH_INFO": "/u/cal/src%d.ics" % k, "HTTP_HOST": HOST, "HTTP_DESTINATION": dest,
@@ -515,8 +540,8 @@ def run_scenario(sc):
         conf["server"] = {"script_name": prefix}
     host_hdr = X.HOSTNAME
     stats = dict(hrefs=0, requests=0)
-    with Server(conf) as srv:
-        fr = X.Front(srv, mode, prefix, login=user + ":pw")
+    with X.fast_server(conf) as srv:
+        fr = X.Front(srv, mode, prefix, login=user + ":pw", style=sc.get("style", "strict"))
         root = os.path.join(srv.folder, "collection-root")
         try:
             cpath = "/%s/%s/" % (user, col)
@@ -671,6 +696,8 @@ def run_scenario(sc):
             return [Fail("an emitted href does not lie below the mount prefix", href=str(e))], stats, fr.log[-6:]
         except Fail as f:
             return [f], stats, fr.log[-6:]
+        except ET.ParseError as e:
+            return [Fail("a multistatus body is not well-formed XML", error=str(e))], stats, fr.log[-6:]
         stats["requests"] = len(fr.log)
         return fails, stats, fr.log[-6:] if fails else []
 
@@ -698,7 +725,8 @@ def gen_scenario(rng, mode=None, prefix=None):
         n = X.rand_component(rng, 8)
         if n not in names and n not in moves:
             moves.append(n)
-    return dict(mode=mode, prefix=prefix, user=user, col=X.rand_component(rng, 6), kind=kind, names=names, move_names=moves)
+    return dict(mode=mode, prefix=prefix, user=user, col=X.rand_component(rng, 6), kind=kind, names=names, move_names=moves,
+                style=rng.choice(["strict", "pchar"]))
 
 
 FIXED_SCENARIOS = [
@@ -707,9 +735,15 @@ FIXED_SCENARIOS = [
     dict(mode="proxy-strip", prefix="/my app", user="u", col="cal", kind="C", names=["a.ics"], move_names=["x.ics"]),                   # F11
     dict(mode="proxy-strip-xff", prefix="/radicale", user="radicale2", col="cal", kind="C", names=["a.ics"], move_names=["x.ics"]),     # F12
     dict(mode="none", prefix="", user="u", col="cal", kind="C", names=["a;b.ics", "c.ics"], move_names=["c;d.ics", "e;f;g"]),           # F13
+    dict(mode="none", prefix="", user="u", col="cal", kind="C", names=["a;b.ics", "c+d e.ics"], move_names=["c;d.ics", "e+f;g=h"], style="pchar"),
     dict(mode="proxy-full-xff", prefix="/a/b", user="u;x", col="c?d", kind="CR", names=["#1.vcf", "é ü.vcf"], move_names=["%41.vcf", "z"]),
     dict(mode="config-full-xff", prefix="/é/my app", user="u", col="ca l", kind="C", names=["\U0001F600.ics", "100%.ics"], move_names=["a&b=c", "q'\"<>"]),
     dict(mode="wsgi", prefix="/dav;v=1", user="a@b", col="x+y", kind="C", names=["p q+r.ics", "\\back.ics"], move_names=["::", "[x]"]),
+]
+FIXED_SCENARIOS += [
+    # not behind a reverse proxy (no X-Forwarded-*): a collection spelled like the script name is an ordinary collection
+    dict(mode="wsgi", prefix="/radicale", user="radicale", col="cal", kind="C", names=["a.ics"], move_names=["x.ics"]),
+    dict(mode="proxy-strip", prefix="/radicale", user="radicale", col="radicale", kind="C", names=["radicale"], move_names=["x.ics"]),
 ]
 AMBIGUOUS_SCENARIO = dict(mode="proxy-strip-xff", prefix="/radicale", user="radicale", col="cal", kind="C", names=["a.ics"],
                           move_names=["x.ics"])
@@ -720,12 +754,120 @@ def sc_nontrivial(sc):
     return urllib.parse.quote(text) != text
 
 
+PCHAR_SAFE = "/!$&'()*+,;=:@"
+
+
+def mon_request_line(ctx, names):
+    """A name written by a client with either percent-encoding style reaches the handler as that very name."""
+    n = 0
+    for name in names:
+        for style, safe in (("strict", "/"), ("pchar", PCHAR_SAFE)):
+            path = "/u/" + name
+            target = urllib.parse.quote(path, safe=safe)
+            for t in (target, target + "?sync=1&x=%2F"):
+                n += 1
+                got = X.get_environ_only(t)
+                if got != path:
+                    ctx.violation("request line: %r written as %r reaches Radicale as %r" % (path, t, got),
+                                  dict(function="radicale.server.RequestHandler.get_environ", target=t, expected=path, got=got))
+                    return
+    ctx.extra["monitor_request_lines"] = n
+
+
+def spellings(rng, path):
+    """Different ways a client may write the URL of the storage path `path` (all denote the same resource)."""
+    strict = urllib.parse.quote(path, safe="/")
+    pchar = urllib.parse.quote(path, safe=PCHAR_SAFE)
+    out = [strict, pchar, re.sub(r"%[0-9A-F]{2}", lambda m: m.group(0).lower(), strict)]
+    # unreserved characters escaped although they need not be
+    out.append(re.sub(r"%[0-9A-F]{2}|[A-Za-z0-9]",
+                      lambda m: m.group(0) if (len(m.group(0)) == 3 or rng.random() < 0.6) else "%%%02X" % ord(m.group(0)), strict))
+    # dot segments and doubled slashes in front of the last segment
+    head, _, last = strict.rpartition("/")
+    out.append(head + "/./" + last)
+    out.append(head + "//" + last)
+    out.append(head + "/x/../" + last)
+    out.append(head + "/x/%2E%2E/" + last)
+    out.append(strict + "?q=%2F;#")
+    return out
+
+
+def mon_same_decoding(ctx):
+    """`decodes it the same way`, stated on the implementation: a URL used as request target of PUT, as multiget href
+    and as MOVE Destination names the same file; a URL that is not below the base prefix names nothing."""
+    from vlib.impl import Server, event
+    rng = ctx.rng
+    n = ctx.n(240, 6000)
+    conf = {"auth": {"type": "none"}, "rights": {"type": "vlib.x_c18_rights"}, "web": {"type": "none"}}
+    checked = 0
+    with X.fast_server(conf) as srv:
+        for base in ["", "/radicale", "/r", "/my app"]:
+            fr = X.Front(srv, "proxy-strip" if base else "none", base)
+            assert fr.send("MKCOL", fr.client_url("/u/"))[0] in (201, 405)
+            assert fr.send("MKCALENDAR", fr.client_url("/u/cal/"))[0] in (201, 405, 409)
+            for k in range(n // 4):
+                name = X.rand_component(rng, 8)
+                path = "/u/cal/" + name
+                uid = "sd%d" % checked
+                for url in rng.sample(spellings(rng, base + path), 3):
+                    checked += 1
+                    st = fr.send("PUT", url, data=event(uid))[0]
+                    where1 = find_uid(srv.folder, uid)
+                    if st != 201 or where1 != [path]:
+                        ctx.violation("request line %r does not reach %r" % (url, path),
+                                      dict(monitor="same_decoding", base=base, url=url, expected=path, status=st, found=where1))
+                        return
+                    st, h, b = fr.send("REPORT", fr.client_url("/u/cal/"), data=X.multiget_body([url.split("#")[0]]))
+                    rs = X.response_status_map(b) if st == 207 else []
+                    if [r[1] for r in rs] != [200] or ("UID:" + uid) not in (rs[0][2] or ""):
+                        ctx.violation("multiget href %r does not select the item the request line %r created" % (url, url),
+                                      dict(monitor="same_decoding", base=base, url=url, expected=path, status=st, responses=rs[:3]))
+                        return
+                    assert fr.send("MOVE", url.split("#")[0].split("?")[0],
+                                   headers={"Destination": "http://%s%s" % (X.HOSTNAME, fr.client_url("/u/cal/src.ics"))})[0] == 201
+                    st = fr.send("MOVE", fr.client_url("/u/cal/src.ics"), headers={"Destination": "http://%s%s" % (X.HOSTNAME, url)})[0]
+                    where2 = find_uid(srv.folder, uid)
+                    if st != 201 or where2 != [path]:
+                        ctx.violation("Destination %r reaches %r, the same URL as request line reaches %r" % (url, where2, path),
+                                      dict(monitor="same_decoding", base=base, url=url, expected=path, status=st, found=where2))
+                        return
+                    fr.send("DELETE", fr.client_url(path))
+                # a sibling of the prefix is not below the prefix
+                if base:
+                    sib = base + rng.choice(["2", "x", "-", "."])
+                    url = urllib.parse.quote(sib + path)
+                    fr.send("PUT", fr.client_url("/u/cal/src.ics"), data=event(uid))
+                    if base == "/r" and k == 0:
+                        fr.send("MKCOL", fr.client_url("/u/"))
+                        srv.mkcol("/2u/"), srv.mkcalendar("/2u/cal/"), srv.mkcol("/xu/"), srv.mkcalendar("/xu/cal/")
+                    url2 = urllib.parse.quote(base + rng.choice(["2", "x"]) + "u/cal/" + name) if base == "/r" else url
+                    for u in (url, url2):
+                        st = fr.send("MOVE", fr.client_url("/u/cal/src.ics"), headers={"Destination": "http://%s%s" % (X.HOSTNAME, u)})[0]
+                        if st in (201, 204):
+                            ctx.violation("Destination %r is outside the base prefix %r but the item was moved to %r" % (
+                                u, base, find_uid(srv.folder, uid)),
+                                dict(monitor="same_decoding", base=base, destination=u, status=st, found=find_uid(srv.folder, uid)))
+                            return
+                        st, h, b = fr.send("REPORT", fr.client_url("/u/cal/"), data=X.multiget_body([u]))
+                        rs = X.response_status_map(b) if st == 207 else []
+                        if rs:
+                            ctx.violation("multiget href %r is outside the base prefix %r but was answered" % (u, base),
+                                          dict(monitor="same_decoding", base=base, href=u, responses=rs[:3]))
+                            return
+                    fr.send("DELETE", fr.client_url("/u/cal/src.ics"))
+    ctx.extra["monitor_same_decoding_urls"] = checked
+    ctx.count("monitor:same_decoding", checked)
+
+
 def monitors(ctx):
     rng = ctx.rng
+    mon_same_decoding(ctx)
+    mon_request_line(ctx, [X.rand_component(rng, 10, allow_dot_start=True) for _ in range(ctx.n(1500, 50000))]
+                     + ["a+b", "a b", "a%20b", "a;b", "a:b@c", "é+ü", "+", "%2B"])
     scs = list(FIXED_SCENARIOS)
     for mode in X.MODES:
         scs.append(gen_scenario(rng, mode))
-    while len(scs) < ctx.n(45, 1500):
+    while len(scs) < ctx.n(150, 4000):
         scs.append(gen_scenario(rng))
     total = dict(hrefs=0, requests=0)
     seen_steps = set()
